@@ -189,6 +189,16 @@ def run(facts, tr, rep):
                "the latency-mode hedge is counted (one increment dominates the spawn) and `spawned + 1 < max_hedged_attempts` guards the branch" if ok else
                "the latency-mode hedge spawn is not counted against max_hedged_attempts")
     rep.floor("C12.latency-spawn-sites", len(lat_spawns), 1)
+    # ------------------------------------------------------------ DELAY-ORIGIN: the hedge timer is only armed with configured delays
+    sleeps = [c for c in g.calls() if c.def_ and c.def_.startswith("tokio::time::sleep::sleep")]
+    rep.floor("C12.sleep-sites", len(sleeps), 2)
+    for n, c in enumerate(sleeps):
+        d = tr.expand(tr.operand(hb, c.args[0], c.loc), upvars=True, params=True)
+        ok = bool(calls_in(tr, d, lambda x: x.name == "get_delay"))
+        rep.ob("C12.DELAY-ORIGIN", skey(hb, "sleep#%d" % n), ok, c.where(),
+               "the hedge timer is armed with a delay obtained from config.delay.get_delay(..)" if ok else
+               "the hedge timer is armed with %s, not a configured delay: the next attempt can start earlier than the configured delay "
+               "after the previous one" % show(peel(d)))
     # ------------------------------------------------------------ FIRST-SUCCESS
     nok = 0
     for (i, j, node) in ret_assigns(tr, hb):
